@@ -33,6 +33,15 @@ func (g *Grammar) isNodeParser(f *ssa.Function) bool {
 	if f == nil || !g.isParserMethod(f) || f.Signature.Results().Len() != 1 {
 		return false
 	}
+	// a parser of one construct: it takes at most the input node; a method with
+	// further parameters (a separator token, an operand parser) is a generic
+	// helper that is followed, not an operand
+	ps := f.Signature.Params()
+	for i := 0; i < ps.Len(); i++ {
+		if !types.Identical(ps.At(i).Type(), g.NodeT) {
+			return false
+		}
+	}
 	return types.Identical(f.Signature.Results().At(0).Type(), g.NodeT)
 }
 
@@ -72,7 +81,7 @@ func (w *World) runLevel(g *Grammar, fn *ssa.Function, tok int64, name string) [
 				w.forgetToken(st, args, scannerField, tokIdx, nameIdx)
 			}
 			return true, AVal{Kind: avUnknown, Tag: tag}
-		case ai.w.inPkg(callee) && w.reachesFn(callee, g.NextItem, 4) && !g.isNodeParser(callee):
+		case ai.w.inPkg(callee) && w.reachesFn(callee, g.NextItem, 4) && !g.isNodeParser(callee) && !w.isGenericParserHelper(g, callee):
 			// a token consumer (next, skipItem, ...): interpret checking consumers? no: the token is consumed
 			st.Trace = append(st.Trace, AEvent{Kind: "consume", Site: site, Callee: callee})
 			w.forgetToken(st, args, scannerField, tokIdx, nameIdx)
@@ -559,4 +568,23 @@ func (w *World) reachesStep(callee, step *ssa.Function) bool {
 	v := w.pkgReach([]*ssa.Function{callee}, nil)[step]
 	w.reachStepCache[callee] = v
 	return v
+}
+
+// isGenericParserHelper: a parser method that is not a parser of one construct
+// (it takes more than the input node) and builds nodes or is handed an operand
+// parser: a piece of a level or of a path parser, to be followed.
+func (w *World) isGenericParserHelper(g *Grammar, f *ssa.Function) bool {
+	if f == nil || !g.isParserMethod(f) || g.isNodeParser(f) {
+		return false
+	}
+	if f.Signature.Results().Len() != 1 || !types.Identical(f.Signature.Results().At(0).Type(), g.NodeT) {
+		return false
+	}
+	ps := f.Signature.Params()
+	for i := 0; i < ps.Len(); i++ {
+		if _, ok := ps.At(i).Type().Underlying().(*types.Signature); ok {
+			return true
+		}
+	}
+	return w.buildsOperatorNodes(g, f)
 }
